@@ -341,12 +341,10 @@ def replay(pid, spec, ov, h, cfg):
            '--harness', h['pretty_name'], '--exact', '--target-dir', tdir]
     if spec.get('features'):
         cmd += ['--features', ','.join(spec['features'])]
-    if cfg.get('unwindset') or cfg.get('cbmc'):
-        extra = []
-        for k, n in cfg.get('unwindset', {}).items():
-            extra += ['--unwindset', '%s:%d' % (k, n)]
-        extra += cfg.get('cbmc', [])
-        cmd += ['-Z', 'unstable-options', '--cbmc-args'] + extra
+    # kani-driver runs its own CBMC: give it the flags that make the query tractable (field-sensitive heap blocks)
+    extra = ['--max-field-sensitivity-array-size', str(max(64, cfg.get('fs_array', cfg['arena'])))]
+    extra += cfg.get('cbmc', [])
+    cmd += ['-Z', 'unstable-options', '--cbmc-args'] + extra
     try:
         # no address-space limit here: rustc/kani-compiler reserve far more virtual memory than they touch
         r = subprocess.run(cmd, cwd=ov, env=env, stdout=subprocess.PIPE, stderr=subprocess.STDOUT, text=True,
